@@ -3,10 +3,27 @@ import ChfVerif.Model.DiamClient
 namespace Chf.Gen
 open Chf.DiamClient
 
-/-- internal/abmf/abmf.go: SendAccountDebitRequest / HandleCCA; internal/context: the sm.Client in field "AbmfClient" -/
-def abmfClient : Cfg := ⟨true, true, true, true, 5000, false, true, 0⟩
+/-- every call of the two client functions outside their own packages: file, enclosing function, callee,
+    whether it runs outside the calling operation (go / defer / function literal, directly or through helpers) -/
+structure CallSite where
+  file : String
+  fn : String
+  callee : String
+  async : Bool
+deriving DecidableEq, Repr
 
-/-- internal/rating/rating.go: SendServiceUsageRequest / HandleSUA; internal/context: the sm.Client in field "RatingClient" -/
-def ratingClient : Cfg := ⟨true, true, true, true, 5000, false, true, 0⟩
+def clientCallSites : List CallSite := [
+  ⟨"internal/sbi/processor/converged_charging.go", "getUnitCost", "SendServiceUsageRequest", false⟩,
+  ⟨"internal/sbi/processor/converged_charging.go", "sessionChargingReservation", "SendAccountDebitRequest", false⟩,
+  ⟨"internal/sbi/processor/converged_charging.go", "sessionChargingReservation", "SendServiceUsageRequest", false⟩,
+  ⟨"internal/sbi/processor/converged_charging.go", "sessionChargingReservation", "SendServiceUsageRequest", false⟩,
+  ⟨"internal/sbi/processor/converged_charging.go", "sessionChargingReservation", "SendAccountDebitRequest", false⟩
+]
+
+/-- internal/abmf/abmf.go: SendAccountDebitRequest / HandleCCA; internal/context: the sm.Client in field "AbmfClient"; serial: no call site above is async -/
+def abmfClient : Cfg := ⟨true, true, true, true, 5000, false, true, 0, true⟩
+
+/-- internal/rating/rating.go: SendServiceUsageRequest / HandleSUA; internal/context: the sm.Client in field "RatingClient"; serial: no call site above is async -/
+def ratingClient : Cfg := ⟨true, true, true, true, 5000, false, true, 0, true⟩
 
 end Chf.Gen
